@@ -586,16 +586,65 @@ section race
 open Hive.NotifierRace
 
 /-- **C15, notifier, concurrent.**  From the initial state with any number of other listeners on
-the entry and any pool of concurrent `Wait`, `Deregister`, other listeners' deregistrations,
+the entry and any pool of concurrent `Wait` and `Deregister` callers of `L`, `Deregister` callers of
+the other listeners (any number per listener — overlapping deregistrations of ONE listener included),
 `Notify` callers and a context cancellation, in every reachable configuration: a `Wait` that
 returns (or is about to return) success implies that a `Notify` closed the channel while the
-listener's deregistered flag was still unset. -/
+listener's deregistered flag was still unset.  `removeListener` decrements the entry's count
+unconditionally in the model as in the code; that a listener is removed once only is derived from
+the atomic `Swap` (`C15_notifier_count_exact`). -/
 theorem C15_notifier_wait_race (others : Nat) (ts ts' : List Th) (s : Sh)
     (hts : ∀ t ∈ ts, t.initial = true) (hr : Reach (sys true) (init others, ts) (s, ts'))
-    (pc : DPc) (hw : Th.dr (some .ok) pc ∈ ts') : s.inWindow = true := by
+    (pc : DPc) (hw : Th.dr none (some .ok) pc ∈ ts') : s.inWindow = true := by
   have : CfgInv (s, ts') :=
     inv_induction CfgInv (cfgInv_init others ts hts) (fun a b ha hs => cfgInv_step ha hs) hr
-  exact (this.2 _ hw).1
+  exact (this.2 _ hw).1 rfl
+
+/-- **C15, notifier: the reference count is exact under any concurrency.**  Same pools of threads, every
+reachable configuration: while the entry exists its count equals the number of listeners whose
+`deregistered` flag is unset plus the number of `Deregister` callers that won the swap and have not
+yet finished `removeListener`; and when the notify channel was closed without a Notify in `L`'s
+window, `L`'s flag is set (the deregistration that brought the count to 0 found every flag set). -/
+theorem C15_notifier_count_exact (others : Nat) (ts ts' : List Th) (s : Sh)
+    (hts : ∀ t ∈ ts, t.initial = true) (hr : Reach (sys true) (init others, ts) (s, ts')) :
+    (s.entry = true → s.count = unflagged s + ts'.countP mid) ∧
+    (s.nchan = true → s.inWindow = false → s.flag = true) := by
+  have : CfgInv (s, ts') :=
+    inv_induction CfgInv (cfgInv_init others ts hts) (fun a b ha hs => cfgInv_step ha hs) hr
+  exact ⟨this.1.count_exact, this.1.closed_flag⟩
+
+/-- Non-vacuity of the hypotheses: two overlapping `Deregister` calls of the other listener, a
+`Deregister` of `L`, a waiter, a notifier and a cancellation are all admissible initial threads. -/
+example : ∀ t ∈ [Th.w0, .dr (some 0) none .swap, .dr (some 0) none .swap, .dr none none .swap, .nt false, .cx false],
+    t.initial = true := by decide
+
+/-- The theorem depends on the atomicity of the swap: with `Deregister` written as "check the flag
+with a plain `Load`, `removeListener`, then `Swap`" (program counters `sload …`), two overlapping
+`Deregister` calls of the ONE other listener both pass the check and both decrement: the count drops
+2 → 0, the shared channel is closed, and `L` — registered, never deregistered, never notified — gets
+success from `Wait`.  (Seeded change C15-r6-1; on the real code the `vx` stress section looks for it.) -/
+theorem C15_notifier_double_deregister_witness :
+    let c := runSched (sys true) (init 1, [.w0, .dr (some 0) none .sload, .dr (some 0) none .sload])
+      [(1, 0), (2, 0), (1, 0), (2, 0), (0, 0), (0, 0), (0, 0)]
+    c.2[0]? = some (.dr none (some .ok) .swap) ∧ c.1.inWindow = false ∧ c.1.flag = false := by
+  decide
+
+/-- The same schedule with the code's `Deregister` (atomic swap first): the second caller returns
+at the swap, the count stays at 1, the channel stays open and the waiter stays blocked at its select. -/
+example :
+    let c := runSched (sys true) (init 1, [.w0, .dr (some 0) none .swap, .dr (some 0) none .swap])
+      [(1, 0), (2, 0), (1, 0), (1, 0), (0, 0)]
+    c.2[0]? = some .w1 ∧ c.2[2]? = some (.dr (some 0) none .fin) ∧ c.1.count = 1 ∧ c.1.nchan = false ∧ c.1.entry = true := by
+  decide
+
+/-- Second effect of the same variant: the sole listener's channel is closed by `removeListener`
+before the flag is set, so a `Wait` racing the `Deregister` sees the closed channel with the flag
+unset and returns success without any Notify. -/
+theorem C15_notifier_split_deregister_wait_witness :
+    let c := runSched (sys true) (init 0, [.w0, .dr none none .sload])
+      [(0, 0), (1, 0), (1, 0), (0, 0), (0, 0)]
+    c.2[0]? = some (.dr none (some .ok) .swap) ∧ c.1.inWindow = false := by
+  decide
 
 /-- The select race of the original `Wait` (no re-check after the notify channel was chosen):
 `Deregister` completes, then `Notify` runs (another listener keeps the entry alive), then the
@@ -603,22 +652,30 @@ waiter — which passed its flag check before — selects the notify channel and
 although the Notify came after the deregistration.  Replayed on the real code through the `verif`
 hook by the `vr o1 dereg notify` corpus case. -/
 theorem C15_notifier_wait_race_old_witness :
-    let c := runSched (sys false) (init 1, [.w0, .dr none .swap, .nt false])
+    let c := runSched (sys false) (init 1, [.w0, .dr none none .swap, .nt false])
       [(0, 0), (1, 0), (1, 0), (1, 0), (2, 0), (0, 0)]
-    c.2[0]? = some (.dr (some .ok) .swap) ∧ c.1.inWindow = false := by
+    c.2[0]? = some (.dr none (some .ok) .swap) ∧ c.1.inWindow = false := by
   decide
 
 /-- The same schedule on the repaired model ends in `ErrListenerDeregistered`. -/
 example :
-    let c := runSched (sys true) (init 1, [.w0, .dr none .swap, .nt false])
+    let c := runSched (sys true) (init 1, [.w0, .dr none none .swap, .nt false])
       [(0, 0), (1, 0), (1, 0), (1, 0), (2, 0), (0, 0), (0, 0)]
-    c.2[0]? = some (.dr (some .dereg) .swap) := by
+    c.2[0]? = some (.dr none (some .dereg) .swap) := by
   decide
 
 /-- Non-vacuity: a schedule in which Wait legitimately succeeds. -/
 example :
     let c := runSched (sys true) (init 0, [.w0, .nt false]) [(0, 0), (1, 0), (0, 0), (0, 0)]
-    c.2[0]? = some (.dr (some .ok) .swap) ∧ c.1.inWindow = true := by
+    c.2[0]? = some (.dr none (some .ok) .swap) ∧ c.1.inWindow = true := by
+  decide
+
+/-- The forced schedules of the `vr` section as the model judges them (the last other listener's
+deregistration closes the notify channel only when `L` is deregistered too). -/
+example : admitted true 2 [.odereg, .odereg, .cancel] = [.ctx] ∧
+    admitted true 1 [.dereg, .odereg] = [.dereg, .dereg] ∧
+    admitted true 1 [.dereg, .notify] = [.dereg, .dereg] ∧
+    admitted true 0 [.notify, .dereg] = [.dereg, .dereg] ∧ admitted true 0 [.notify] = [.ok] := by
   decide
 
 end race
